@@ -447,7 +447,7 @@ def _sp_configs() -> List[Dict[str, Any]]:
 
 for _cfg in _sp_configs():
     _k = "c11:scaled_parameters[" + ",".join(f"{k}={_cfg[k]}" for k in sorted(_cfg)) + "]"
-    register(Job(_k, ["C10", "C11"], O + "scaled_parameters", _cfg, _sp_job(_cfg)))
+    register(Job(_k, ["C10", "C11", "C12"], O + "scaled_parameters", _cfg, _sp_job(_cfg), shared=True))
 
 
 def _sp_initiation_use_job() -> Record:
